@@ -62,7 +62,8 @@ func defaultReturnHandler() ReturnHandler {
 			return
 		}
 
-		if respVal.IsZero() {
+		// An empty byte slice has nothing to send, just like nil and the empty string.
+		if respVal.IsZero() || (isByteSlice(respVal) && respVal.Len() == 0) {
 			return
 		}
 
